@@ -548,11 +548,11 @@ def main(tier):
                        "no model of the window is used: at-most-once, differential no-trace and "
                        "'strictly increasing is accepted' only"]
     exe = build.ensure_world("asan")
-    nrec, nsend = (400, 200) if tier == "quick" else (20000, 4000)
+    nrec, nsend = (1200, 500) if tier == "quick" else (20000, 4000)
     chunk = 10
     jobs = [("recipient", list(range(i, min(nrec, i + chunk))), exe) for i in range(0, nrec, chunk)]
     jobs += [("sender", list(range(i, min(nsend, i + chunk))), exe) for i in range(0, nsend, chunk)]
-    ncli = 150 if tier == "quick" else 3000
+    ncli = 400 if tier == "quick" else 3000
     jobs += [("client-forgery", list(range(i, min(ncli, i + chunk))), exe)
              for i in range(0, ncli, chunk)]
     jobs += [("role-reversal", list(range(i, min(ncli, i + chunk))), exe)
